@@ -262,6 +262,33 @@ RANDOM_PROGRAMS = {
 }
 
 
+def interleaved_tree(rnd, nmax):
+    """root children that interleave: the tokens are dealt out at random to 2..4 groups, every group of two
+    or more tokens is a constituent directly below the root (single tokens stay root tokens), and some groups
+    get an inner constituent - the configurations root_attach has to sort out"""
+    n = rnd.randint(4, max(4, nmax))
+    k = rnd.randint(2, 4)
+    groups = [[] for _ in range(k)]
+    for p in range(1, n + 1):
+        groups[rnd.randrange(k)].append(p)
+    nodes = [{'y': list(range(1, n + 1)), 'd': 0, 'tok': False, 'a': treeio.attr(lab='VROOT', edge='--')}]
+    depth = {}
+    for g in groups:
+        if len(g) >= 2:
+            nodes.append({'y': g, 'd': 1, 'tok': False, 'a': treeio.attr(lab=rnd.choice(['S', 'NP', 'VP']), edge='--')})
+            for p in g:
+                depth[p] = 2
+            if len(g) >= 3 and rnd.random() < 0.4:
+                sub = sorted(rnd.sample(g, rnd.randint(2, len(g) - 1)))
+                nodes.append({'y': sub, 'd': 2, 'tok': False, 'a': treeio.attr(lab='NP', edge='--')})
+                for p in sub:
+                    depth[p] = 3
+    for p in range(1, n + 1):
+        nodes.append({'y': [p], 'd': depth.get(p, 1), 'tok': True,
+                      'a': treeio.attr(lab='T', word=rnd.choice(['w%d' % p, ',', '"']), edge='--', lemma='--', morph='--')})
+    return {'n': n, 'nodes': nodes}
+
+
 def random_cases(prop, tier, seed, mods):
     rnd = random.Random(seed * 7919 + 13)
     n = 300 if tier == 'quick' else 2500
@@ -295,6 +322,8 @@ def random_cases(prop, tier, seed, mods):
                                words=wordf,
                                tags=('T', 'PRELS', 'NN', 'VVFIN', 'VBD', 'IN') if prop in ('C15', 'C05', 'C04') else ('T', 'PRELS'),
                                tokedges=('--', 'HD', 'NK'), chain=0.4)
+        if prop in ('C12', 'C13', 'C04') and k % 3 == 1:
+            T = interleaved_tree(rnd, 8 if tier == 'quick' else 11)
         for x in T['nodes']:
             x['a']['lab'] = list(x['a']['lab'])
         fix_traces(T)
